@@ -1066,8 +1066,6 @@ fn main() {
             if let Some(pc) = parse_case(&c) {
                 let src = render(&pc, false);
                 println!("{src}");
-                let out = shell::run_with(shell::Config::new(&src), |_, _| (), |_, _| ()).0;
-                let _ = out;
             }
         }
         return;
